@@ -20,19 +20,56 @@ head = subprocess.check_output(["git", "-C", "/repo", "rev-parse", "--short", "H
 wt = os.path.join(SCR, "_store_wt")
 subprocess.call(["git", "-C", "/repo", "worktree", "remove", "--force", wt], stderr=subprocess.DEVNULL)
 subprocess.check_call(["git", "-C", "/repo", "worktree", "add", "-q", wt, "HEAD"])
+KEEP = json.load(open(os.path.join(SCR, "KEEP.json"))) if os.path.exists(os.path.join(SCR, "KEEP.json")) else {}
 kept = 0
 for (pid, v), f in sorted(confirm.items()):
-    ok = "1448 passed" in f[2] and f[3] != "demo_with=0" and f[4] == "demo_without=0"
+    preserving = v.startswith("K")
+    if preserving:
+        ok = "1448 passed" in f[2] and f[3] == "demo_with=0" and f[4] == "demo_without=0"
+    else:
+        ok = "1448 passed" in f[2] and f[3] != "demo_with=0" and f[4] == "demo_without=0"
     if not ok:
         print("NOT KEPT", pid, v, f[2:])
         continue
     out = os.path.join(SCR, pid, "out")
     patch = os.path.join(out, f"{v}.diff")
+    if preserving:
+        subprocess.check_call(["git", "-C", wt, "checkout", "-q", "--", "."])
+        subprocess.check_call(["git", "-C", wt, "clean", "-fdq"])
+        if subprocess.call(f"cd {wt} && (git apply {patch} 2>/dev/null || patch -p1 -s --fuzz=3 < {patch})", shell=True) != 0:
+            print("APPLY FAIL", pid, v)
+            continue
+        subprocess.check_call(["git", "-C", wt, "add", "-A"])
+        diff = subprocess.check_output(["git", "-C", wt, "diff", "--cached"]).decode()
+        subprocess.check_call(["git", "-C", wt, "reset", "-q", "--hard"])
+        dest = f"/verif/seeded_keep/{pid}-{TAG}{v}"
+        os.makedirs(dest, exist_ok=True)
+        open(os.path.join(dest, "patch.diff"), "w").write(diff)
+        shutil.copy(os.path.join(out, "demoK.py"), os.path.join(dest, "demo.py"))
+        mx = matrix.get((pid, v), {})
+        meta = {
+            "preserves_property": pid,
+            "kind": "behaviour-preserving refactoring",
+            "origin": f"independent sub-agent, round {TAG[1:]}, given only the property record and a scratch worktree",
+            "what": KEEP.get(f"{pid}-{v}", ""),
+            "based_on_repo_commit": head,
+            "confirmed": {
+                "how": "scratch worktree of /repo HEAD: patch applied; full suite; demo.py (checks the property through the public API) run with and without the patch",
+                "tests_with_change": f[2], "demo_exit_with_change": 0, "demo_exit_without_change": 0,
+            },
+            "alarms": sorted(p for p, (rc, _) in mx.items() if rc != 0),
+            "expect": "every check exits 0 with this patch applied",
+        }
+        json.dump(meta, open(os.path.join(dest, "meta.json"), "w"), indent=1)
+        kept += 1
+        continue
     subprocess.check_call(["git", "-C", wt, "checkout", "-q", "--", "."])
     if subprocess.call(f"cd {wt} && (git apply {patch} 2>/dev/null || patch -p1 -s --fuzz=3 < {patch})", shell=True) != 0:
         print("APPLY FAIL", pid, v)
         continue
-    diff = subprocess.check_output(["git", "-C", wt, "diff"]).decode()
+    subprocess.check_call(["git", "-C", wt, "add", "-A"])
+    diff = subprocess.check_output(["git", "-C", wt, "diff", "--cached"]).decode()
+    subprocess.check_call(["git", "-C", wt, "reset", "-q", "--hard"])
     dest = f"/verif/seeded/{pid}-{TAG}{v}"
     os.makedirs(dest, exist_ok=True)
     open(os.path.join(dest, "patch.diff"), "w").write(diff)
